@@ -48,7 +48,7 @@ def deref(v):
 def truncate(v, depth=4):
     """Cut structure below `depth` to TOP (keeps summaries finite)."""
     k = v[0]
-    if k in ("top", "k", "str", "fn", "uninit"):
+    if k in ("top", "k", "str", "fn", "uninit", "errobj", "posobj", "external"):
         return v
     if depth <= 0:
         return TOP
